@@ -59,6 +59,8 @@ func dq(s string) string {
 			b.WriteString(`\\`)
 		case '\n':
 			b.WriteString(`\n`)
+		case '$':
+			b.WriteString(`\$`) // no substitution
 		default:
 			b.WriteRune(r)
 		}
